@@ -295,6 +295,11 @@ class ModelInterp(MiniEval):
                 if isinstance(recv, Recorder):
                     return self.record(recv, f.attr, args, kwargs)
                 return self.apply(target, args, kwargs)
+        if isinstance(f, ast.Attribute) and isinstance(f.value, ast.Name):
+            recv0 = env.get(f.value.id)
+            if isinstance(recv0, ExitStackM) and f.attr == 'callback':
+                args, kwargs = self._args(e, env)
+                return recv0.callback(*args, **kwargs)
         if isinstance(f, ast.Name):
             try:
                 fv = self.lookup(f.id, env)
@@ -503,7 +508,12 @@ class ModelInterp(MiniEval):
                 entered.append(cm)
                 if it.optional_vars is not None:
                     self.assign(it.optional_vars, cm, env)
-            self.block(s.body, env)
+            try:
+                self.block(s.body, env)
+            finally:
+                for cm in reversed(entered):
+                    if isinstance(cm, ExitStackM):
+                        cm.close(self)
             return
         if isinstance(s, ast.Assert):
             return
@@ -525,4 +535,23 @@ class ModelInterp(MiniEval):
         return False
 
 
-_EXTERNAL: dict[str, Any] = {}
+class ExitStackM:
+    """contextlib.ExitStack for interpreted code: callbacks run, last first, when the with block is left"""
+
+    def __init__(self):
+        self.callbacks: list = []
+
+    def callback(self, fn, *args, **kwargs):
+        self.callbacks.append((fn, args, kwargs))
+        return fn
+
+    def close(self, interp):
+        while self.callbacks:
+            fn, args, kwargs = self.callbacks.pop()
+            if isinstance(fn, (Bound, FuncRef, Hook)):
+                interp.apply(fn, list(args), dict(kwargs))
+            else:
+                interp.as_callable(fn)(*args, **kwargs)
+
+
+_EXTERNAL: dict[str, Any] = {'contextlib.ExitStack': Hook(lambda: ExitStackM())}
